@@ -233,6 +233,21 @@ CLAIMS = {
               "steps per episode (quick) / 3 (thorough); the inner sweep loop is bounded by a cap of 400 decisions per path (cut "
               "paths counted). One defect found by this check was repaired in /repo (cached self-transition matrix)."),
         ref='DESIGN.md section 4 C17'),
+    'C19': dict(
+        text=("Partly applicable. entropy_regularized_policy_iteration is executed (torch facade) for ONE iteration from a starting "
+              "policy of a menu with symbolic rewards: a run that reports convergence is exactly a fixed point of one iteration, so "
+              "the fixed-point clauses are decided for any number of iterations. On every converged path z3 proves: action values "
+              "are the one-step look-ahead of the state values; the policy is within np.isclose of prior(a)*Exp(q(s,a)/w_s) / "
+              "sum_b prior(b)*Exp(q(s,b)/w_s) (Exp uninterpreted, so any change of temperature, prior or axis yields a different "
+              "term and a counterexample); the state values satisfy the soft evaluation identity v = sum_a pi (q - w log(pi/prior)) "
+              "with the GIVEN prior (together with the softmax clause this is the prior-weighted log-sum-exp). Every case is "
+              "also replayed on the real torch code at a genuine fixed point constructed for it."),
+        note=("NOT claimed: convergence of the action values to the hard optimum as the entropy weight tends to 0 (an asymptotic "
+              "statement; no decision procedure for it here). 3 transition tensors (1-2 states, 2 actions), priors uniform / skewed "
+              "/ per-state, entropy weights 1, 1/2, per-state (1/5, 2), 10, discount 1/2 (9/10 in thorough), with and without forced "
+              "non-zero probabilities; exp / log modelled by uninterpreted Exp (positive, strictly monotone, Exp(0)=1) and LogU with "
+              "Exp(LogU(p)) = p"),
+        ref='DESIGN.md section 4 C19'),
     'C20': dict(
         text=("For EVERY layout over the plain grid world's alphabet with a start cell up to 4 cells (quick; 6 in thorough, plus a "
               "menu of larger layouts: goal column cutting the grid, walled-in start, one-row/one-column grids) the real parser "
